@@ -378,7 +378,53 @@ func (r *Rig) rawPeer() (upstream.Upstream, error) {
 	}
 }
 
+// `life <carrier> 1 blockS rstall` (NOT generated, NOT modelled - kept for replaying an observation, see notes/C14.md):
+// the other direction.  The raw peer floods a logical connection whose target has stopped reading (`noread`); after
+// 4 MiB the server's multiplexer stops reading the carrier (receive budget exhausted); then the peer hangs up.  The
+// server never reads again, so it never sees the end of the carrier, and the multiplexer's keep-alive declines to close a
+// session whose receive budget is exhausted.  Census (everything counted) 70 s later.  result: held=<bool>
+func stalledTargetCut(carrier string) (string, string) {
+	rig, err := NewRig(RigOpts{Carrier: carrier, Channels: map[string]string{"echo": "echo", "sink": "noread"}, Insecure: true})
+	if err != nil {
+		return "fail:rig", err.Error()
+	}
+	defer rig.Close()
+	base := censusBase()
+	p, err := rig.rawPeer()
+	if err != nil {
+		return "fail:peer", err.Error()
+	}
+	defer p.Close()
+	sid := uint32(3)
+	if _, err := p.Write(append(smuxFrame(0, sid, nil), smuxFrame(2, sid, []byte("\x13/multistream/1.0.0\n\x06/sink\n"))...)); err != nil {
+		return "fail:peer", err.Error()
+	}
+	data, total := make([]byte, 3000), 0
+	for {
+		_ = p.SetWriteDeadline(time.Now().Add(2 * time.Second))
+		n, err := p.Write(smuxFrame(2, sid, data))
+		total += n
+		if err != nil {
+			break // the carrier has backed up: the server no longer reads
+		}
+		if total > 256<<20 {
+			return "fail:noblock", "the server kept reading although the target reads nothing"
+		}
+	}
+	_ = p.Close()
+	t0 := time.Now()
+	gs, ss := waitClean(base, func() []string { return nil }, nil, true, 70*time.Second)
+	if len(gs) == 0 && len(ss) == 0 {
+		return "held=false", ""
+	}
+	return "held=true", fmt.Sprintf("%s: the peer hung up while the server was not reading the carrier (target stalled, %d bytes backed up); %v later %d goroutine(s) and %d socket(s) of the dead session remain: %s | sockets: %s",
+		carrier, total, time.Since(t0).Round(time.Second), len(gs), len(ss), strings.Join(gs, "; "), strings.Join(ss, ", "))
+}
+
 func blockedServer(carrier string, rounds int, ending string) (string, string) {
+	if ending == "rstall" && rounds == 1 {
+		return stalledTargetCut(carrier)
+	}
 	switch ending {
 	case "garbage", "cut", "cutwait", "timeout":
 	default:
